@@ -54,6 +54,7 @@ class FaultyFileIO(io.FileIO):
         if plan.hook:
             plan.hook("before", "open", self._path)
             super().__init__(path, mode)
+            self._stamp(plan)      # creating / truncating a file sets its modified time
             try:
                 plan.hook("after", "open", self._path)
             except BaseException:
@@ -69,6 +70,12 @@ class FaultyFileIO(io.FileIO):
         if act == "die-after":
             _die()
 
+    def _stamp(self, plan):
+        """The kernel's modified time, on the virtual clock (through the descriptor)."""
+        if plan.stamp is not None:
+            t = plan.stamp()
+            _os.utime(self.fileno(), ns=(int(round(t * 1e9)), int(round(t * 1e9))))
+
     def write(self, b):
         plan = PLAN[0]
         if plan.dead:
@@ -76,6 +83,7 @@ class FaultyFileIO(io.FileIO):
         if plan.hook:
             plan.hook("before", "write", self._path)
             n = super().write(b)
+            self._stamp(plan)      # so does every write - and nothing else (closing a file does not)
             plan.hook("after", "write", self._path)
             return n
         act = plan.op("write", len(b))
@@ -109,10 +117,6 @@ class FaultyFileIO(io.FileIO):
             except BaseException:
                 io.FileIO.close(self)   # a failing close(2) still releases the descriptor
                 raise
-            if plan.stamp is not None:
-                # the kernel's mtime, on the virtual clock (through the descriptor: the file may have been renamed)
-                t = plan.stamp()
-                _os.utime(self.fileno(), ns=(int(round(t * 1e9)), int(round(t * 1e9))))
             super().close()
             plan.hook("after", "close", self._path)
             return
